@@ -1,10 +1,10 @@
 /-
 C19 — stream statistics equal a recount of the observed traffic.
 Only property theorems live here.  Model: Model/Stats.lean (the stats interceptor and its
-recorders, on the tree with the F-29 and F-27 fixes); spec: Spec/Stats.lean (counts, sums and
+recorders, on the tree with the F-29, F-27 and F-34 fixes); spec: Spec/Stats.lean (counts, sums and
 "last matching report" over the event history); helper lemmas: Proofs/Stats*.lean.
 -/
-import Interceptor.Proofs.StatsMemory
+import Interceptor.Proofs.StatsRtt
 set_option linter.unusedVariables false
 namespace Interceptor.Stats
 open Interceptor.Stats.Spec Interceptor.F64
@@ -91,14 +91,13 @@ example : (reportsFor 1 [.rtcpIn 0 [.rr 9 [⟨1, 10, 3, 0, 90, 0, 0⟩, ⟨2, 0,
       .rtcpIn 5 [.xr 9 [], .sr 9 0 0 0 [⟨1, 128, 4, 0, 180, 0, 0⟩]]]).getLast?
     = some ⟨1, 128, 4, 0, 180, 0, 0⟩ := by decide
 
-/-- T4, round-trip time, `_partial` (stated per report block, not per history): when a report
-block about `s` with non-zero LSR and DLSR is processed and the search over the remembered
-sender reports (most recent first, at most 5) finds the NTP time `v` whose middle 32 bits are
-the LSR, then `RoundTripTime = now − DLSR/65536 s − ToTime(v)` (binary64 / int64 exactly as the
-code computes it), the measurement count goes up by one and the total by that RTT (int64
-wrap-around).  Missing for the full statement: a history-level characterisation of *which*
-report was the last to hit (the memory itself is characterised by `sr_memory_eq_recount`). -/
-theorem rtt_from_lsr_dlsr_partial (s : Nat) (rate : Rat) (now : Int) (st : IStats) (r : Report) (v : Nat)
+/-- T4, round-trip time, one report block: when a report block about `s` with non-zero LSR and
+DLSR is processed and the search over the remembered sender reports (most recent first, at most
+5) finds the NTP time `v` whose middle 32 bits are the LSR, then
+`RoundTripTime = now − DLSR/65536 s − ToTime(v)` (binary64 / int64 exactly as the code computes
+it), the measurement count goes up by one and the total by that RTT (int64 wrap-around).  The
+history-level statement is `rtt_from_latest_matching_report` below. -/
+theorem rtt_from_lsr_dlsr_step (s : Nat) (rate : Rat) (now : Int) (st : IStats) (r : Report) (v : Nat)
     (hs : r.ssrc = s) (hd : r.dlsr ≠ 0) (hl : r.lsr ≠ 0)
     (hf : (searchOrder st.lastSRs).find? (midMatches r.lsr) = some v) :
     (rrStep s rate now st r).riRTT = rttOf now r.dlsr v ∧
@@ -119,12 +118,10 @@ theorem sr_memory_eq_recount (s : Nat) (evs : List Event) :
   | none => rfl
   | some a => simp [fold_mem_init]
 
-/-- T4, round-trip time at history level for the moment right after a report (`_partial`: says
-nothing about later moments, where the value persists until the next hit): after any active
-window `w`, a receiver report carrying a block about `s` whose LSR is found, most recent first,
-among the last five sender reports sent for `s` in `w` gives
-`RoundTripTime = now − DLSR − ToTime(that SR)`. -/
-theorem rtt_after_report_partial (s : Nat) (rate : Rat) (w : List Event) (now : Int) (x : Nat) (r : Report) (v : Nat)
+/-- T4, round-trip time right after a report (corollary form): after any active window `w`, a
+receiver report carrying a block about `s` whose LSR is found, most recent first, among the
+last five sender reports sent for `s` in `w` gives `RoundTripTime = now − DLSR − ToTime(that SR)`. -/
+theorem rtt_after_report (s : Nat) (rate : Rat) (w : List Event) (now : Int) (x : Nat) (r : Report) (v : Nat)
     (hs : r.ssrc = s) (hd : r.dlsr ≠ 0) (hl : r.lsr ≠ 0)
     (hf : (searchOrder (lastN 5 (srTimes s w))).find? (midMatches r.lsr) = some v) :
     ((w ++ [Event.rtcpIn now [Rtcp.rr x [r]]]).foldl (recStep s rate) {}).riRTT = rttOf now r.dlsr v := by
@@ -134,9 +131,9 @@ theorem rtt_after_report_partial (s : Nat) (rate : Rat) (w : List Event) (now : 
   simp only [List.foldl_cons, List.foldl_nil, recStep, recordIncomingRTCP]
   rw [inStep_hit _ _ _ _ _ hc]
   simp only [inSwitch, recordIncomingRR, List.foldl_cons, List.foldl_nil]
-  exact (rtt_from_lsr_dlsr_partial s rate now _ r v hs hd hl (by rw [hm]; exact hf)).1
+  exact (rtt_from_lsr_dlsr_step s rate now _ r v hs hd hl (by rw [hm]; exact hf)).1
 
-/-- non-vacuity of the hypotheses of `rtt_after_report_partial`: six SRs sent, the LSR of the
+/-- non-vacuity of the hypotheses of `rtt_after_report`: six SRs sent, the LSR of the
 second (the oldest still remembered) is found; that of the first is not. -/
 example : (searchOrder (lastN 5 (srTimes 1 [.rtcpOut [.sr 1 (10 * 65536) 0 0 [], .sr 1 (20 * 65536) 0 0 []],
       .rtcpOut [.sr 1 (30 * 65536) 0 0 [], .sr 2 (35 * 65536) 0 0 [], .sr 2 (40 * 65536) 0 0 [⟨1, 0, 0, 0, 0, 0, 0⟩]],
@@ -172,24 +169,84 @@ theorem remote_packets_received_formula (s : Nat) (rate : Rat) (now : Int) (st :
   repeat' split
   all_goals rfl
 
-/-- T4, DLRR, per sub-report (`_partial` in the same sense as `rtt_from_lsr_dlsr_partial`): each
-remembered receiver-reference time whose middle 32 bits equal `LastRR` yields one measurement
-`now − DLRR/65536 s − ToTime(v)`. -/
-theorem rtt_from_dlrr_partial (now : Int) (dlrr lrr : Nat) (st : IStats) (v : Nat) (h : midMatches lrr v = true) :
+/-- T4, DLRR, one remembered time: each remembered receiver-reference time whose middle 32 bits
+equal `LastRR` yields one measurement `now − DLRR/65536 s − ToTime(v)` (history level:
+`dlrr_rtt_from_history`). -/
+theorem rtt_from_dlrr_step (now : Int) (dlrr lrr : Nat) (st : IStats) (v : Nat) (h : midMatches lrr v = true) :
     (dlrrHit now dlrr lrr st v).roRTT = rttOf now dlrr v ∧ (dlrrHit now dlrr lrr st v).roN = st.roN + 1 ∧
     (dlrrHit now dlrr lrr st v).roTotRTT = wrap64 (st.roTotRTT + rttOf now dlrr v) := by
   unfold dlrrHit rttOf
   simp [h]
 
-/-- Remark proved as a theorem: for *incoming* FIR the code's notion of "addressed to `s`"
-(`isFirInFor`: an FCI entry for `s` **and** the media-source field of the header equal to `s`)
-is not RFC 5104's (the media-source field of a FIR is unused and SHALL be 0; the targets are the
-FCI entries — which is what the code uses for *outgoing* FIR): a compliant FIR for `s` is not
-counted.  Candidate finding, not fixed here. -/
-theorem fir_in_addressing_rfc5104_false :
-    ¬ (∀ (s : Nat) (p : Rtcp), isFirInFor s p = isFirOutFor s p) := by
+/-- ★ T4 `rtt_from_latest_matching_report`, round-trip time at history level: at every query
+`RoundTripTime`, `TotalRoundTripTime` and `RoundTripTimeMeasurements` of the remote-inbound
+stream are the last element, the (int64) sum and the number of `rttHits s w` — the list, in
+arrival order, over every incoming compound packet of the window, of `now − DLSR − ToTime(SR)`
+for each report block about `s` (in SR or RR, anywhere in the compound) with non-zero LSR and
+DLSR whose LSR is found, most recent first, among the last five sender reports that had been
+*sent for `s` before that packet*.  So a `RoundTripTime` seen later stems from the most recent
+such block, judged against the sender reports sent before it; 0 if there never was one. -/
+theorem rtt_from_latest_matching_report (s : Nat) (evs : List Event) :
+    ((Icpt.run evs).get s).map remoteInboundRtt = (window s evs).map fun w => rttFiguresOf (rttHits s w) := by
+  rw [get_eq_fold]
+  unfold window
+  cases activation s evs with
+  | none => rfl
+  | some a => simp [fold_rtt_init]
+
+/-- non-vacuity: SR sent, a first report misses (LSR of nothing sent), a second one hits, later
+traffic (another SR out, a report with DLSR = 0) leaves the value alone: one measurement. -/
+example : rttFiguresOf (rttHits 1 [.rtcpOut [.sr 1 (3155673600 * 4294967296) 0 0 []],
+      .rtcpIn 946684801000000000 [.rr 9 [⟨1, 0, 0, 0, 0, 77, 65536⟩]],
+      .rtcpIn 946684801500000000 [.xr 9 [], .rr 9 [⟨2, 0, 0, 0, 0, 0, 0⟩, ⟨1, 0, 0, 0, 0, 3155673600 * 65536 % 4294967296, 32768⟩]],
+      .rtcpOut [.sr 1 (3155673700 * 4294967296) 0 0 []],
+      .rtcpIn 946684809000000000 [.rr 9 [⟨1, 0, 0, 0, 0, 3155673700 * 65536 % 4294967296, 0⟩]]])
+    = { rtt := 1000000000, total := 1000000000, n := 1 } := by
+  decide +kernel
+
+/-- ★ T4, DLRR at history level: `RoundTripTime`, total and count of the remote-outbound stream
+are the last element, the sum and the number of `dlrrHits s w`: for every incoming XR, every DLRR
+sub-report about `s` with non-zero LastRR and DLRR, every one of the last five
+receiver-reference times sent before that packet whose middle bits equal LastRR (most recent
+first; the code does not stop at the first) yields `now − DLRR − ToTime(that time)`. -/
+theorem dlrr_rtt_from_history (s : Nat) (evs : List Event) :
+    ((Icpt.run evs).get s).map remoteOutboundRtt = (window s evs).map fun w => rttFiguresOf (dlrrHits s w) := by
+  rw [get_eq_fold]
+  unfold window
+  cases activation s evs with
+  | none => rfl
+  | some a => simp [fold_ro_init]
+
+/-- non-vacuity: the same reference time sent twice is matched twice by one sub-report. -/
+example : (rttFiguresOf (dlrrHits 1 [.rtcpOut [.xr 1 [.rrtr (3155673600 * 4294967296)], .xr 1 [.rrtr (3155673600 * 4294967296)]],
+      .rtcpIn 946684801500000000 [.xr 9 [.dlrr [⟨2, 5, 5⟩, ⟨1, 3155673600 * 65536 % 4294967296, 32768⟩]]]])).n = 2 := by
+  decide +kernel
+
+/-- ★ FIR addressing (F-34, fixed): in both directions a FIR is addressed to `s` iff one of its
+FCI entries names `s` (RFC 5104 §4.3.1: the media-source field of the header is unused and
+SHALL be 0) — the recount `counters_eq_recount` uses for incoming FIR is the same predicate as
+for outgoing FIR — … -/
+theorem fir_in_addressing_rfc5104 (s : Nat) (p : Rtcp) : isFirInFor s p = isFirOutFor s p := by
+  cases p <;> rfl
+
+/-- … and the recorder counts an incoming FIR with an FCI entry for `s` whatever its header says. -/
+theorem fir_in_counted_per_fci_entry (s : Nat) (rate : Rat) (now : Int) (st : IStats) (sender media : Nat)
+    (es : List Nat) (h : s ∈ es) :
+    (inStep s rate now st (.fir sender media es)).outFIR = st.outFIR + 1 := by
+  have hc : (Rtcp.fir sender media es).dest.contains s = true := by simpa [Rtcp.dest] using h
+  rw [inStep_hit _ _ _ _ _ hc]
+  rfl
+
+/-- non-vacuity: a compliant FIR (media SSRC 0) inside a compound packet. -/
+example : ((Icpt.run [.bind 1 90000, .rtcpIn 0 [.xr 9 [], .fir 9 0 [2, 1]]]).get 1).map (·.outFIR) = some 1 := by
+  decide
+
+/-- The same statement on the code *before* `fix: stats: count an incoming FIR for the stream
+named in its FCI entries` is false (F-34): media SSRC 0, FCI entry for stream 1 — not counted. -/
+theorem fir_in_counted_unfixed_false :
+    ¬ (∀ (s : Nat) (st : IStats) (media : Nat), (firInUnfixed s st media).outFIR = st.outFIR + 1) := by
   intro h
-  have := h 1 (.fir 9 0 [1])
+  have := h 1 {} 0
   revert this
   decide
 
